@@ -344,7 +344,7 @@ func lookup(fr *frame, instr *ssa.Lookup, x, idx value) value {
 	case string, symstr:
 		// string indexing
 		s, _ := asSymBytes(x)
-		checkIndex(fr, instr.Pos(), idx, len(s))
+		checkIndex(fr, instr.Pos(), idx, len(s), instr.Index.Type())
 		if si, ok := idx.(*symv); ok {
 			return (&symptr{elems: []value(s), idx: si}).load(fr, instr.Type())
 		}
